@@ -38,12 +38,27 @@ let pr_atom s =
   | 'C' -> (match String.split_on_char '=' rest with [i; n] -> RcCount (pr_nat_of_int (int_of_string i), num n) | _ -> failwith "atom")
   | 'Z' -> RcFsz (num rest)
   | 'U' -> (match String.split_on_char '=' rest with [o; v] -> RcU8 (num o, num v) | _ -> failwith "atom")
+  | 'E' -> RcEpEq (num rest)
+  | 'A' -> RcAtEp (pr_nat_of_int (int_of_string rest))
   | _ -> failwith "atom"
 let pr_ans = function AnsBlock i -> string_of_int (pr_int_of_nat i) | AnsEnd -> "E" | AnsNotReady -> "R"
 let pr_log l = if l = [] then "-" else
   String.concat "," (List.map (fun (f, a) -> (if f then "f" else "n") ^ pr_ans a) l)
 let pr_matches m = String.concat "/" (List.map (fun l -> if l = [] then "-" else String.concat "." (List.map string_of_n l)) m)
 let rec pr_take k l = if k <= 0 then [] else match l with [] -> [] | x :: r -> x :: pr_take (k - 1) r
+
+let pr_blocks s =
+  let eps = ref [] in
+  let bl = List.map (fun e -> match String.split_on_char ':' e with
+    | [b; "null"; sz] -> { rb_base = n_of_int (int_of_string b); rb_size = n_of_int (int_of_string sz); rb_data = None }
+    | [b; h; ep] when String.length ep > 1 && ep.[0] = 'e' ->
+        let d = unhex h in
+        eps := (n_of_int (int_of_string b), n_of_int (int_of_string (String.sub ep 1 (String.length ep - 1)))) :: !eps;
+        { rb_base = n_of_int (int_of_string b); rb_size = n_of_int (List.length d); rb_data = Some d }
+    | [b; h] -> let d = unhex h in { rb_base = n_of_int (int_of_string b); rb_size = n_of_int (List.length d); rb_data = Some d }
+    | _ -> failwith "block") (pr_split ',' s) in
+  (bl, List.rev !eps)
+let pr_ep = function None -> "-" | Some e -> string_of_n e
 
 (* c13 <pats hex,..> <rules ns:g:p:atom,..> <imports> <flags> <script> <fsz|-> <blocks base:hex|base:null:size,..> <pattern 01..|->
    one "call ..." segment per yr_scanner_scan_mem_blocks call, then the summary *)
@@ -54,29 +69,26 @@ let () = register "c13" (fun args -> match args with
         | [ns; g; p; a] -> { rc_ns = pr_nat_of_int (int_of_string ns); rc_global = pr_bool g; rc_private = pr_bool p;
                              rc_atom_of = pr_atom a }
         | _ -> failwith "rule") (pr_split ',' rules) in
-      let blocks = List.map (fun e -> match String.split_on_char ':' e with
-        | [b; "null"; sz] -> { rb_base = n_of_int (int_of_string b); rb_size = n_of_int (int_of_string sz); rb_data = None }
-        | [b; h] -> let d = unhex h in { rb_base = n_of_int (int_of_string b); rb_size = n_of_int (List.length d); rb_data = Some d }
-        | _ -> failwith "block") (pr_split ',' blocks) in
+      let (blocks, eps) = pr_blocks blocks in
       let fsz = if fsz = "-" then None else Some (n_of_int (int_of_string fsz)) in
       let pat = if pattern = "-" then [] else List.init (String.length pattern) (fun i -> pattern.[i] = '1') in
       let imports = pr_imports imports and f = z_of_int (int_of_string flags) and sc = pr_script script in
-      let m0 = List.map (fun _ -> []) pats in
+      let m0 = rc_empty pats in
       let buf = Buffer.create 256 in
       let rec loop st it ncalls logged =
         if ncalls > List.length pat + 2 then (Buffer.add_string buf "runaway | "; None) else
-        let ((res, st'), it') = rc_call true pats rules imports f sc blocks fsz st it in
+        let ((res, st'), it') = rc_call true pats eps rules imports f sc blocks fsz st it in
         let full = List.rev it'.ri_log in
         let fresh = List.filteri (fun i _ -> i >= logged) full in
         (match res with
          | RsNotReady -> Buffer.add_string buf (Printf.sprintf "call rc=61 log=%s | " (pr_log fresh));
                          loop st' it' (ncalls + 1) (List.length full)
          | RsFuel -> Buffer.add_string buf "call fuel | "; None
-         | RsDone ((tr, rc), m) ->
-             Buffer.add_string buf (Printf.sprintf "call msgs=%s rc=%s log=%s m=%s | " (pr_msgs tr) (string_of_z rc) (pr_log fresh) (pr_matches m));
-             Some (((tr, rc), m), ncalls + 1, st')) in
+         | RsDone (((tr, rc), m), ep) ->
+             Buffer.add_string buf (Printf.sprintf "call msgs=%s rc=%s log=%s m=%s ep=%s | " (pr_msgs tr) (string_of_z rc) (pr_log fresh) (pr_matches m) (pr_ep ep));
+             Some ((((tr, rc), m), ep), ncalls + 1, st')) in
       let r = loop (rs_init m0) (rs_iter_init pat) 0 0 in
-      let one = rc_run true pats rules imports f sc blocks fsz pat in
+      let one = rc_run true pats eps rules imports f sc blocks fsz pat in
       let same = (match r, one with
         | Some (x, c, st), Some ((((y, c'), st'), _)) -> x = y && c = pr_int_of_nat c' && st = st'
         | None, None -> true
@@ -98,20 +110,18 @@ let () = register "c13abandon" (fun args -> match args with
         | [ns; g; p; a] -> { rc_ns = pr_nat_of_int (int_of_string ns); rc_global = pr_bool g; rc_private = pr_bool p;
                              rc_atom_of = pr_atom a }
         | _ -> failwith "rule") (pr_split ',' rules) in
-      let blocks = List.map (fun e -> match String.split_on_char ':' e with
-        | [b; h] -> let dd = unhex h in { rb_base = n_of_int (int_of_string b); rb_size = n_of_int (List.length dd); rb_data = Some dd }
-        | _ -> failwith "block") (pr_split ',' blocks) in
+      let (blocks, eps) = pr_blocks blocks in
       let fsz = if fsz = "-" then None else Some (n_of_int (int_of_string fsz)) in
       let pat = if pattern = "-" then [] else List.init (String.length pattern) (fun i -> pattern.[i] = '1') in
       let sc = pr_script "-" and f = z_of_int 0 in
-      let m0 = List.map (fun _ -> []) pats in
+      let m0 = rc_empty pats in
       let buf = unhex bufhex in
       let one st =
         let b = { rb_base = n_of_int 0; rb_size = n_of_int (List.length buf); rb_data = Some buf } in
-        match rc_call d pats rules [] f sc [b] (Some (n_of_int (List.length buf))) st (rs_iter_init []) with
-        | ((RsDone ((tr, rc), m), _), _) -> Printf.sprintf "msgs=%s rc=%s m=%s" (pr_msgs tr) (string_of_z rc) (pr_matches m)
+        match rc_call d pats [] rules [] f sc [b] (Some (n_of_int (List.length buf))) st (rs_iter_init []) with
+        | ((RsDone (((tr, rc), m), _), _), _) -> Printf.sprintf "msgs=%s rc=%s m=%s" (pr_msgs tr) (string_of_z rc) (pr_matches m)
         | _ -> "notdone" in
-      let ((res, st'), _) = rc_call d pats rules [] f sc blocks fsz (rs_init m0) (rs_iter_init pat) in
+      let ((res, st'), _) = rc_call d pats eps rules [] f sc blocks fsz (rs_init m0) (rs_iter_init pat) in
       (match res with
        | RsNotReady -> Printf.sprintf "abandoned=true notebook=%b reused %s | fresh %s" st'.rs_notebook (one st') (one (rs_init m0))
        | _ -> "abandoned=false")
